@@ -1002,6 +1002,83 @@ fn world_case(out: &mut Out, args: &Args, rt: &tokio::runtime::Runtime, kind: &s
 }
 
 // ---------------------------------------------------------------------------------------------
+// the versatiles block writer: de-duplication layout against the model (`C04 dedup <len>:<id>,…`)
+// ---------------------------------------------------------------------------------------------
+fn dedup_case(out: &mut Out, args: &Args, rt: &tokio::runtime::Runtime, spec: &str) {
+	use crate::indep_formats as fi;
+	let line = format!("C04 dedup {spec}");
+	let blobs: Vec<Vec<u8>> = spec
+		.split(',')
+		.map(|t| {
+			let (l, i) = t.split_once(':').unwrap();
+			vec![i.parse::<u8>().unwrap(); l.parse::<usize>().unwrap()]
+		})
+		.collect();
+	// one block (zoom 8), one row: stream order = index order = position in the list
+	let tiles: Vec<(Coord3, Vec<u8>)> = blobs.iter().enumerate().map(|(i, b)| ((8u8, i as u32, 0u32), b.clone())).collect();
+	let path = target_path(args, &format!("dedup{}", fnv_str(spec)), "versatiles");
+	let mut reader = MemReader::new(TileFormat::BIN, TileCompression::Uncompressed, source_tilejson(false), &tiles);
+	let r = catch(|| rt.block_on(versatiles_container::write_to_filename(&mut reader, path.to_str().unwrap())));
+	let ans = match r {
+		Ok(Ok(())) => {
+			let bytes = std::fs::read(&path).unwrap_or_default();
+			match fi::parse_versatiles(&bytes) {
+				Ok(p) if p.records.len() == 1 => {
+					let rec = &p.records[0];
+					let io = (rec.offset + rec.blobs_len) as usize;
+					match fi::brotli_d(&bytes[io..io + rec.index_len as usize]) {
+						Ok(raw) if raw.len() == 12 * blobs.len() => {
+							let ranges: Vec<(u64, u64)> = raw.chunks(12).map(|e| (u64::from_be_bytes(e[0..8].try_into().unwrap()), u32::from_be_bytes(e[8..12].try_into().unwrap()) as u64)).collect();
+							// direct oracle: every entry reads back its blob from the block's blob area
+							let ok = ranges.iter().zip(blobs.iter()).all(|((o, l), b)| {
+								let s = (rec.offset + o) as usize;
+								*o + *l <= rec.blobs_len && bytes.get(s..s + *l as usize) == Some(b.as_slice())
+							});
+							out.oracle(ok, "C04 dedup: index entry does not read back its blob", json!({"kind":"dedup_read"}), json!({"case": line}));
+							format!("data={} ranges={}", rec.blobs_len, ranges.iter().map(|(o, l)| format!("{o}:{l}")).collect::<Vec<_>>().join(","))
+						}
+						_ => "bad-index".into(),
+					}
+				}
+				_ => "bad-file".into(),
+			}
+		}
+		Ok(Err(_)) => "err".into(),
+		Err(_) => "panic".into(),
+	};
+	out.case(&line, &ans, blobs.len() >= 2);
+	out.count("dedup_cases");
+	cleanup(&path);
+}
+
+fn fnv_str(s: &str) -> u64 {
+	let mut h: u64 = 0xcbf29ce484222325;
+	for b in s.as_bytes() {
+		h ^= *b as u64;
+		h = h.wrapping_mul(0x100000001b3);
+	}
+	h
+}
+
+fn gen_dedup_spec(rng: &mut Rng) -> String {
+	let n = rng.range(1, 12) as usize;
+	let lens = [1usize, 2, 17, 500, 998, 999, 1000, 1001, 1500];
+	let mut pool: Vec<(usize, u8)> = vec![];
+	let mut v = vec![];
+	for _ in 0..n {
+		let item = if !pool.is_empty() && rng.chance(1, 2) {
+			*rng.pick(&pool)
+		} else {
+			let it = (*rng.pick(&lens), rng.below(4) as u8 + 1);
+			pool.push(it);
+			it
+		};
+		v.push(format!("{}:{}", item.0, item.1));
+	}
+	v.join(",")
+}
+
+// ---------------------------------------------------------------------------------------------
 // assumed codec laws, tested on the real crates
 // ---------------------------------------------------------------------------------------------
 fn law_checks(out: &mut Out, args: &Args, rng: &mut Rng) {
@@ -1105,6 +1182,7 @@ fn replay_line(out: &mut Out, args: &Args, rt: &tokio::runtime::Runtime, n: &mut
 		["C04", "proc", s, d, f, kind, p] => proc_case(out, parse_comp(s).unwrap(), parse_comp(d).unwrap(), b(f), kind, &unhex(p)),
 		["C04", "rec", s, d, kind, p] => rec_case(out, parse_comp(s).unwrap(), parse_comp(d).unwrap(), kind, &unhex(p)),
 		["C04", "world", kind, fmt, s, tg, f, a, bb, c] => world_case(out, args, rt, kind, fmt, parse_comp(s).unwrap(), tgt(tg), b(f), a.parse().unwrap(), bb.parse().unwrap(), c.parse().unwrap()),
+		["C04", "dedup", spec] => dedup_case(out, args, rt, spec),
 		["C04", "leaves", s, tg, f] => leaves_case(out, args, rt, parse_comp(s).unwrap(), tgt(tg), b(f)),
 		["C04", "stream", s, d, f] => stream_check(out, rt, parse_comp(s).unwrap(), parse_comp(d).unwrap(), b(f)),
 		["C04", "e2e", fmt, tf, s, tg, f] => e2e_case(out, args, rt, n, fmt, tf, parse_comp(s).unwrap(), tgt(tg), b(f)),
@@ -1168,6 +1246,14 @@ pub fn run(args: &Args) {
 	if args.thorough() {
 		leaves_case(&mut out, args, &rt, TileCompression::Uncompressed, Some(TileCompression::Gzip), false);
 		leaves_case(&mut out, args, &rt, TileCompression::Brotli, None, true);
+	}
+	// C''. de-duplication layout of the versatiles block writer
+	for spec in ["999:1,999:1", "1000:1,1000:1", "999:1,1000:1,999:1", "5:1,5:2,5:1,5:2,5:1", "1:1", "1001:3,17:2,1001:3,17:2"] {
+		dedup_case(&mut out, args, &rt, spec);
+	}
+	for _ in 0..args.n(60, 1500) {
+		let spec = gen_dedup_spec(&mut rng);
+		dedup_case(&mut out, args, &rt, &spec);
 	}
 	// D''. worlds
 	{
